@@ -118,13 +118,15 @@ claim('C02',
       'list, option wiring.',
       'Decided: the necessary conditions above (each is such that breaking it '
       'yields a colliding or unstable renaming for some program). Not '
-      'decided: the bounded exhaustive enumeration of generated ids the '
-      'property mentions (a runtime enumeration); injectivity of positional '
-      'notation is a textbook argument, not mechanised. Trusted base: '
-      'refs/pico8_api.py.',
+      'decided: injectivity of the expansion for ALL ids is argued from its '
+      'recognised positional form (a textbook argument, not mechanised); the '
+      'evaluation of _name_for_id on ids 0..1407 and around the 3/4-letter '
+      'boundary can only produce a witness (two ids, one name), a clean '
+      'result there proves nothing and is not reported as more. Trusted '
+      'base: refs/pico8_api.py.',
       'static analysis: def-use / who-stores enumeration, CFG path checks on '
       'the allocation loop, constant evaluation, sibling-consistency of guard '
-      'sets',
+      'sets, abstract evaluation of the id expansion on a listed id range',
       'DESIGN.md section 4 C02')
 
 claim('C14',
@@ -133,14 +135,22 @@ claim('C14',
       '(once, cycles terminate), the require finder descends through every '
       'node type it overrides (visitor completeness), no token-replaying '
       'writer serialises an edited AST, spliced sequences are '
-      'newline-terminated, only top-level callback definitions are stripped '
-      'and only on request, every invalid/missing require raises.',
-      'Decided: the necessary conditions above. Not decided: token-for-token '
-      'equality of embedded bodies for concrete packages, load-path '
-      'resolution order (value level).',
+      'newline-terminated, every invalid/missing require raises; and the '
+      'game-loop strip itself, by evaluating _evaluate_require on a stand-in '
+      'package (symbolic token spellings, parser-node stand-ins with concrete '
+      'ranges; callbacks at the start / middle / end / adjacent / none / '
+      'only, option on and off): the text handed to the re-parse is exactly '
+      'the tokens outside the top-level callback definitions, in order, and '
+      'the re-parse is what is stored.',
+      'Decided: the necessary conditions above; the strip for the listed '
+      'package shapes with every token spelling symbolic (sampled in the '
+      'statement layout, exhaustive in the token texts). Not decided: '
+      'token-for-token equality of embedded bodies for concrete packages, '
+      'load-path resolution order (value level).',
       'static analysis: CFG dominance, visitor-completeness check against the '
       'evaluated AST schema, def-use check of AST mutation vs serialisation, '
-      'splice-termination idiom check',
+      'splice-termination idiom check, abstract evaluation of the strip with '
+      'stand-ins for parser / file system',
       'DESIGN.md section 4 C14')
 claim('C20',
       'Decides the structure of the include splice for all carts: identity '
@@ -181,7 +191,10 @@ claim('C09',
       'space (+ comment introducer), to write only blank space, to reproduce '
       'the introducer it matched and to preserve line ends; every node type '
       'has a handler reading every field; parser-consumed terminals per node '
-      'type are emitted by the handler.',
+      'type are emitted by the handler; the statement-separator echo '
+      '(_get_semis) is evaluated on token lists with 0-3 semicolons and a '
+      'stand-in spacing hook: every semicolon consumed is written, spacing '
+      'in front of it.',
       'Decided: the necessary conditions above, for all programs. Four open '
       'known findings: parenthesised prefix expressions under '
       'FunctionCall/FunctionCallMethod/VarIndex/VarAttribute make every AST '
@@ -201,10 +214,14 @@ claim('C10',
       'one level deeper; plus the comment introducers known to the pipeline '
       '== those of the lexer, and the ordering dependencies of the '
       'normalisation steps.',
-      'Decided: the structural conditions above. NOT decided (stated '
-      'plainly): idempotence, independence from input indentation beyond the '
-      'introducer/ordering conditions, exact columns -- these quantify over '
-      'the composition of twelve substitutions on unbounded strings.',
+      'Decided: the structural conditions above, including the step '
+      'dependency "no step behind the trailing-space deletion puts spaces in '
+      'front of a line end again" (pattern ending in $ + replacement ending '
+      'in the indentation: this found the blank-line defect repaired in '
+      '/repo 30ac571). NOT decided (stated plainly): idempotence, '
+      'independence from input indentation beyond these conditions, exact '
+      'columns -- these quantify over the composition of twelve '
+      'substitutions on unbounded strings.',
       'static analysis: bounded path unfolding of handlers with boolean '
       'correlation, event-sequence checks, regex-language queries, constant '
       'evaluation',
@@ -257,8 +274,10 @@ claim('C06',
       'reference escape values. Not decided: byte-for-byte equality of a '
       'concrete echo (composition on paper). Encoder and decoder are '
       'extracted by evaluating their loops per concrete byte with the rest '
-      'of the string kept as a regular-language condition; a loop the '
-      'evaluator cannot follow yields exit 2, not a verdict. '
+      'of the string kept as a regular-language condition; when the encoder '
+      'loop is outside that model it is evaluated on concrete strings over a '
+      'reduced remainder set instead: a failing case is then a witness, a '
+      'clean result leaves the clause undecided (exit 2), never a verdict. '
       'Trusted: refs/escapes.py.',
       'static analysis: path-wise symbolic extent checks, byte-transducer '
       'extraction of encoder/decoder (evaluated tables + regular-language '
@@ -355,14 +374,20 @@ claim('C05',
       'decoder must copy back-references element-wise (correct for '
       'overlapping references).',
       'Decided: format agreement, well-formedness bounds from guard shapes, '
-      'decoder copy discipline. NOT decided: decompress(compress(s)) == s as '
-      'such (composition on paper: the greedy search yields SOME valid '
-      'parse); the _update60 compatibility suffix surgery (value-dependent). '
-      'The search-loop rule recognises the loop by shape: a rewritten search '
-      'yields exit 2.',
+      'decoder copy discipline; and what decompress_code does AFTER decoding, '
+      'by evaluating it on hand-built well-formed streams (0x00-escaped '
+      'literals) of texts that meet each post-processing step: it must '
+      'return the text. Two open known findings there: a text that itself '
+      'ends with PICO8_FUTURE_CODE1 / PICO8_FUTURE_CODE2 is cut by the '
+      'suffix stripping (known_findings.json; the NUL stripping found by the '
+      'same rule is repaired, /repo 910fadd). NOT decided: '
+      'decompress(compress(s)) == s as such (composition on paper: the '
+      'greedy search yields SOME valid parse). The search-loop rule '
+      'recognises the loop by shape: a rewritten search yields exit 2.',
       'static analysis: path-wise extraction of codec formulas + exhaustive '
       'evaluation over their finite domains, guard-shape recognition + '
-      'interval arithmetic, path check of the copy loop',
+      'interval arithmetic, path check of the copy loop, abstract evaluation '
+      'of the decoder on constructed streams',
       'DESIGN.md section 4 C05')
 claim('C16',
       'Each codec direction (gfx, gff/map, sfx lines and note accessors, '
